@@ -1667,3 +1667,107 @@ Proof.
   intros. apply (tls13_validate_spec c1 suite1 (tls13_issue c0 suite0 st0) st1); auto.
   cbn. vm_compute. split; [discriminate | reflexivity].
 Qed.
+
+(* ================================================================== ticket keys chosen with the application's callback *)
+Section TicketCallback.
+  Variable dec : list N -> list N -> list N -> list N.
+  Variable mac : list N -> list N -> list N.
+  Variable avail : Z -> bool.
+
+  Lemma find_key_name : forall name l k, find_key name l = Some k -> beq (k_name k) name = true /\ In k l.
+  Proof.
+    induction l as [|a l IH]; cbn [find_key]; intros k H; [discriminate|].
+    destruct (beq (k_name a) name) eqn:B.
+    - injection H as <-. split; auto. left; reflexivity.
+    - destruct (IH k H). split; auto. right; auto.
+  Qed.
+
+  Lemma last_key_In : forall l k, last_key l = Some k -> In k l.
+  Proof. intros l k H. unfold last_key in H. destruct (rev l) eqn:R; [discriminate|]. injection H as <-. apply in_rev. rewrite R. left; reflexivity. Qed.
+
+  Lemma key_add_In : forall n s sl h hl st k, In k (s_keys st) -> In k (s_keys (snd (key_add n s sl h hl st))).
+  Proof.
+    intros n s sl h hl st k H. unfold key_add.
+    destruct (_ && _); [exact H|]. destruct (negb _); [exact H|].
+    destruct (s_keys st) as [|a l] eqn:K; [destruct H|].
+    destruct (_ >? _); cbn [snd set_keys s_keys]; [rewrite K; exact H | apply in_or_app; left; exact H].
+  Qed.
+
+  (* the rest of matrixUnlockSessionTicket sees only the chosen key *)
+  Lemma unlock_singleton : forall c tk st k, find_key (firstn 16 tk) (s_keys st) = Some k ->
+    ticket_unlock dec mac avail c tk (set_keys st [k]) = ticket_unlock dec mac avail c tk st.
+  Proof.
+    intros c tk st k H. destruct (find_key_name _ _ _ H) as [B _].
+    unfold ticket_unlock. cbn [set_keys s_keys find_key]. rewrite B, H. reflexivity.
+  Qed.
+
+  (* without a callback nothing changes with respect to ticket_unlock *)
+  Theorem unlock_cb_none : forall c tk st,
+    ticket_unlock_cb dec mac avail None c tk st = (let '(rc, c') := ticket_unlock dec mac avail c tk st in (rc, c', st)).
+  Proof.
+    intros c tk st. unfold ticket_unlock_cb, get_ticket_keys.
+    destruct (negb (Z.of_nat (length tk) =? TICKETLEN)) eqn:L.
+    - unfold ticket_unlock. rewrite L. reflexivity.
+    - destruct (find_key (firstn 16 tk) (s_keys st)) as [k|] eqn:F.
+      + rewrite (unlock_singleton c tk st k F). reflexivity.
+      + unfold ticket_unlock. rewrite L, F. reflexivity.
+  Qed.
+
+  (* For ALL key lists and ALL callback behaviours: a ticket is honoured only if the registered callback was asked
+     about its key (with the correct found-in-list flag) and did not reject it; the key used is in the key list as the
+     callback left it, carries the ticket's key name, is the LAST key when it had to be supplied by the callback, and
+     the ticket passes every check of matrixUnlockSessionTicket under that key. *)
+  Theorem ticket_callback_respected : forall (f : cbfun) c tk st rc c' st',
+    ticket_unlock_cb dec mac avail (Some f) c tk st = (rc, c', st') -> rc = k_PS_SUCCESS ->
+    let name := firstn 16 tk in
+    let found := match find_key name (s_keys st) with Some _ => true | None => false end in
+    f name found <> CbReject /\
+    exists k, In k (s_keys st') /\ beq (k_name k) name = true /\
+              (found = true -> find_key name (s_keys st) = Some k) /\
+              (found = false -> last_key (s_keys st') = Some k) /\
+              ticket_unlock dec mac avail c tk (set_keys st' [k]) = (k_PS_SUCCESS, c') /\
+              mac (hkey k) (ticket_body tk) = ticket_tag tk.
+  Proof.
+    intros f c tk st rc c' st' E Hrc name found. subst rc.
+    unfold ticket_unlock_cb in E.
+    destruct (negb (Z.of_nat (length tk) =? TICKETLEN)); [injection E as E _ _; discriminate E|].
+    fold name in E. unfold get_ticket_keys in E. fold name in E.
+    assert (Fin : forall k st1, (let '(rc, c1) := ticket_unlock dec mac avail c tk (set_keys st1 [k]) in (rc, c1, st1)) = (k_PS_SUCCESS, c', st') ->
+                  beq (k_name k) name = true ->
+                  st1 = st' /\ ticket_unlock dec mac avail c tk (set_keys st' [k]) = (k_PS_SUCCESS, c') /\ mac (hkey k) (ticket_body tk) = ticket_tag tk).
+    { intros k st1 Q B. destruct (ticket_unlock dec mac avail c tk (set_keys st1 [k])) as [rc1 c1] eqn:U. injection Q as -> -> ->.
+      split; auto. split; auto.
+      destruct (unlock_success dec mac avail c tk (set_keys st' [k]) c' U) as [_ [k' [Fk [M _]]]].
+      cbn [set_keys s_keys find_key] in Fk. fold name in Fk. rewrite B in Fk. injection Fk as <-. exact M. }
+    destruct (find_key name (s_keys st)) as [k0|] eqn:F0; subst found.
+    - destruct (find_key_name _ _ _ F0) as [B0 In0].
+      destruct (f name true) as [| |n s sl h hl] eqn:V; try (injection E as E _ _; discriminate E).
+      + split; [discriminate|]. destruct (Fin k0 st E B0) as [<- [U M]].
+        exists k0. repeat split; auto. intro Q; discriminate Q.
+      + split; [discriminate|]. destruct (Fin k0 _ E B0) as [<- [U M]].
+        exists k0. repeat split; auto; try (intro Q; discriminate Q).
+        apply key_add_In; auto.
+    - destruct (f name false) as [| |n s sl h hl] eqn:V; try (injection E as E _ _; discriminate E).
+      + split; [discriminate|].
+        destruct (last_key (s_keys st)) as [k|] eqn:Lk; [|injection E as E _ _; discriminate E].
+        destruct (beq (k_name k) name) eqn:B; [|injection E as E _ _; discriminate E].
+        destruct (Fin k st E B) as [<- [U M]]. exists k. repeat split; auto. * apply last_key_In; auto. * intro Q; discriminate Q.
+      + split; [discriminate|].
+        set (st1 := snd (key_add n s sl h hl st)) in *.
+        destruct (last_key (s_keys st1)) as [k|] eqn:Lk; [|injection E as E _ _; discriminate E].
+        destruct (beq (k_name k) name) eqn:B; [|injection E as E _ _; discriminate E].
+        destruct (Fin k st1 E B) as [<- [U M]]. exists k. repeat split; auto. * apply last_key_In; auto. * intro Q; discriminate Q.
+  Qed.
+
+  (* with Hunf: what was honoured is a body the server MACed under a key the application did not reject *)
+  Corollary ticket_callback_unforgeable : forall signed (f : cbfun) c tk st c' st',
+    unforgeable mac signed tk ->
+    ticket_unlock_cb dec mac avail (Some f) c tk st = (k_PS_SUCCESS, c', st') ->
+    f (firstn 16 tk) (match find_key (firstn 16 tk) (s_keys st) with Some _ => true | None => false end) <> CbReject
+    /\ exists k, In k (s_keys st') /\ In (hkey k, ticket_body tk) signed.
+  Proof.
+    intros signed f c tk st c' st' Hunf E.
+    destruct (ticket_callback_respected f c tk st _ c' st' E eq_refl) as [R [k [Hin [_ [_ [_ [_ M]]]]]]].
+    split; auto. exists k. split; auto.
+  Qed.
+End TicketCallback.
